@@ -25,6 +25,20 @@ CHECKS = {
         PX_NOTE,
         "DESIGN.md 3/C03",
     ),
+    "C08": (
+        "model_checking",
+        "explicit-state BFS over the real pipeline builder x small inputs (incl. empty) x 5 executors; invariant: returned columns == declared column_names",
+        "Every pipeline reachable in <= 2 builder calls (thorough: + column slice to depth 3) is executed on Pandas, Polars eager/lazy, SQLite and PostgreSQL-dialect text on the SQLite engine, on all multisets of <= 2 rows of a 2-row alphabet (empty input included); the returned column set must equal ops.column_names, and the order too after a final select_columns / bare table. No reference model is involved.",
+        "A backend that raises returns no table and is not judged. pgtext@sqlite is not a PostgreSQL server; only column names are read from it.",
+        "DESIGN.md 3/C08",
+    ),
+    "C09": (
+        "model_checking",
+        "bounded-exhaustive enumeration prefix x aggregation step x suffix x all small inputs x 5 executors; row-count / group-key invariant and per-group reference aggregates",
+        "For every prefix state (depth <= 1), every project and unordered windowed-extend menu entry and five suffix shapes (none, overwrite all outputs, drop all outputs, rename, order) the pipeline is run on all multisets of <= 2 rows over the full product domain (null keys, all-null groups, empty table) on every backend: a grouped project must return one row per distinct key of the backend's own prefix result (null is a key), an un-grouped project exactly one row, a windowed extend every input row with the per-group reference value.",
+        "The node's input is the same backend's evaluation of the prefix (self-consistent oracle); reference aggregate functions in mc/refmodel.py are trusted for the windowed values.",
+        "DESIGN.md 3/C09",
+    ),
     "C24": (
         "model_checking",
         "explicit-state search: complete reachable state graph of the real OrderedSet, lock-step dict/set reference model",
